@@ -182,6 +182,7 @@ type Prepared struct {
 	MT  int     `json:"mt"`
 	Pay Payload `json:"pay"`
 	Mutate bool `json:"mutate,omitempty"` // overwrite the caller's slice after creation
+	Code   int  `json:"code,omitempty"`   // close messages: status code (payload = code + reason of Pay.Len-2 bytes)
 }
 
 type Scenario struct {
